@@ -40,6 +40,10 @@ type C14Case struct {
 	// on B and, with the same kinds, by a bystander on A. Whatever happens to B, the bystander's
 	// relations are not touched: when ltarget is killed at the end it gets exactly one notification each
 	Reverse []C14Rel `json:"reverse,omitempty"`
+	// Resub: a further process of A monitors (or links) the node b@h2 and subscribes again from inside
+	// the handler of every node-down notification it gets. While b@h2 is gone for good (stop, crash) a
+	// renewed subscription either fails or is itself followed by a notification
+	Resub string `json:"resub,omitempty"` // "" | monitor | link
 }
 
 type c14 struct{}
@@ -87,6 +91,9 @@ func (c14) Generate(r *simkit.Rand, tier string) any {
 	}
 	c.Rels = kinds
 	if r.Chance(0.4) {
+		c.Resub = simkit.Pick(r, "monitor", "link")
+	}
+	if r.Chance(0.4) {
 		for _, what := range []string{"pid", "name", "alias", "event"} {
 			if r.Chance(0.5) {
 				c.Reverse = append(c.Reverse, C14Rel{Kind: simkit.Pick(r, "link", "monitor"), What: what})
@@ -117,6 +124,11 @@ func (c14) Shrink(cc any) []any {
 	for i := range c.Reverse {
 		n := cloneJSON(c)
 		n.Reverse = dropAt(n.Reverse, i)
+		out = append(out, n)
+	}
+	if c.Resub != "" {
+		n := cloneJSON(c)
+		n.Resub = ""
 		out = append(out, n)
 	}
 	if c.PreTerm {
@@ -204,6 +216,81 @@ func (c14) Run(e *simkit.Env, cc any) {
 	// a second, quiet process on B: the addressee of the in-flight important send (bounded mailbox that is full)
 	b.Send(tPID, "setup")
 	e.Settle(time.Millisecond)
+
+	// ---- a watcher of the node that subscribes again whenever it is told that the node is down ----
+	if c.Resub != "" {
+		var downs, okAgain int
+		var lastErr error
+		sub := func(p *Probe) error {
+			if c.Resub == "link" {
+				return p.LinkNode("b@h2")
+			}
+			return p.MonitorNode("b@h2")
+		}
+		rsReady := make(chan struct{})
+		rh := &Hooks{Name: "resubscriber", Env: e, Trap: true}
+		rh.Message = func(p *Probe, from gen.PID, m any) error {
+			switch v := m.(type) {
+			case string:
+				if v == "relate" {
+					if err := sub(p); err != nil {
+						e.Fail("C14/unexpected-failure", "%s on the connected node b@h2 failed: %v", c.Resub, err)
+					}
+					close(rsReady)
+				}
+				return nil
+			case gen.MessageDownNode:
+				if v.Name != "b@h2" {
+					return nil
+				}
+			case gen.MessageExitNode:
+				if v.Name != "b@h2" {
+					return nil
+				}
+			default:
+				return nil
+			}
+			err := sub(p)
+			mu.Lock()
+			downs++
+			lastErr = err
+			if err == nil {
+				okAgain++
+			}
+			mu.Unlock()
+			e.Logf("resubscriber: node down notification %d, subscribing again -> %v", downs, err)
+			return nil
+		}
+		rpid, err := spawnUnder(e, a, rh)
+		if err != nil {
+			e.Infra("spawn resubscriber: " + err.Error())
+			return
+		}
+		a.Send(rpid, "relate")
+		if !e.WaitChan(rsReady, time.Minute) {
+			e.Fail("C14/unexpected-failure", "the resubscriber did not establish its relation within a simulated minute")
+			return
+		}
+		defer func() {
+			if e.Failed() {
+				return
+			}
+			switch c.Fault {
+			case "stop", "crash", "termcrash":
+			default:
+				return // the node comes back (or never went away): renewed subscriptions are legitimate
+			}
+			e.Settle(10 * time.Second)
+			mu.Lock()
+			d, k, le := downs, okAgain, lastErr
+			mu.Unlock()
+			if d != 1+k {
+				e.Fail("C14/not-notified", "fault %s: b@h2 is gone for good; a process that %ss the node was notified %d time(s) and subscribed again from inside the notification handler each time: %d of these calls succeeded (last result: %v), so %d notification(s) are due", c.Fault, c.Resub, d, k, le, 1+k)
+				return
+			}
+			e.Probe("resubscribed-on-node-down")
+		}()
+	}
 
 	// ---- reverse relations: a target on A watched from B and by a bystander on A ----
 	if len(c.Reverse) > 0 {
@@ -799,6 +886,7 @@ func (c14) Run(e *simkit.Env, cc any) {
 		res["link"] = p.LinkPID(tPID)
 		res["monitor"] = p.MonitorPID(tPID)
 		res["send-alias"] = p.Send(tAlias, "old-alias-send")
+		res["send-important"] = p.SendImportant(tPID, "old-id-important")
 		close(pdone)
 		return nil
 	}
@@ -815,14 +903,14 @@ func (c14) Run(e *simkit.Env, cc any) {
 	if sameCreation {
 		tag = " [node restarted within the same second: same creation value]"
 	}
-	for _, op := range []string{"send", "call", "link", "monitor", "send-alias"} {
+	for _, op := range []string{"send", "call", "link", "monitor", "send-alias", "send-important"} {
 		if !errors.Is(res[op], gen.ErrProcessIncarnation) {
 			e.Fail("C14/old-incarnation-accepted", "%s with an identifier of the previous incarnation of b@h2 (restarted after %dms) returned %v instead of the incarnation error%s", op, c.RestartMs, res[op], tag)
 			return
 		}
 	}
 	for _, g := range newGot {
-		if g == "old-id-send" || g == "call:old-id-call" || g == "old-alias-send" {
+		if g == "old-id-send" || g == "call:old-id-call" || g == "old-alias-send" || g == "old-id-important" {
 			e.Fail("C14/old-incarnation-delivered", "a process of the new incarnation received %q addressed to a process of the previous incarnation%s", g, tag)
 			return
 		}
